@@ -140,6 +140,15 @@ class SigmaRuleBase:
                     )
                     return None
                 return result
+            elif value is not None and not 1000 <= value.year <= 3999:
+                # the same range as for dates given as strings: the rule can be written out and
+                # loaded again
+                errors.append(
+                    exception_class(
+                        f"Rule {name} '{ value }' is invalid, use yyyy-mm-dd", source=source
+                    )
+                )
+                return None
             else:
                 return value
 
